@@ -51,7 +51,88 @@ pub fn run(ctx: &mut Ctx) {
     ctx.start_watchdog(60);
     filter_matrix(ctx);
     tag_sweeps(ctx);
+    array_stress(ctx);
     random_programs(ctx);
+}
+
+/// random long arrays (beyond the 20-element threshold of the standard sort) of every element
+/// kind, including nested arrays that are prefixes of one another and objects with overlapping
+/// keys, in random order, through every array filter — crash / hang / UTF-8 monitors only
+fn array_stress(ctx: &mut Ctx) {
+    use crate::val::{arr, obj, s};
+    let full = parser(Config::Full);
+    let std = parser(Config::Stdlib);
+    let filters = [
+        ("stdlib", "{{ x | sort | join: ',' }}"),
+        ("stdlib", "{{ x | sort_natural | join: ',' }}"),
+        ("stdlib", "{{ x | sort: 'k' | size }}"),
+        ("stdlib", "{{ x | sort_natural: 'k' | size }}"),
+        ("full", "{{ x | sort | size }}"),
+        ("full", "{{ x | sort: 'k' | size }}"),
+        ("full", "{{ x | sort: 'k', 'last' | size }}"),
+        ("stdlib", "{{ x | uniq | reverse | compact | size }}"),
+        ("stdlib", "{{ x | map: 'k' | sort | size }}"),
+        ("stdlib", "{{ x | where: 'k' | size }}{{ x | concat: x | sort | size }}"),
+    ];
+    let templates: Vec<(&str, &str, liquid::Template)> = filters
+        .iter()
+        .map(|(c, t)| (*c, *t, if *c == "full" { full.parse(t) } else { std.parse(t) }.expect("array stress template")))
+        .collect();
+    let n = ctx.scale(6_000u64, 200_000u64);
+    let rng = ctx.rng("c02-array-stress");
+    for i in 0..n {
+        if !ctx.mine_idx(i) {
+            continue;
+        }
+        let mut r = rng.fork(i);
+        let len = 15 + r.below(46);
+        let kind = r.below(6);
+        let elem = |r: &mut crate::rng::Rng| -> RVal {
+            match kind {
+                0 => arr((0..r.below(4)).map(|_| RVal::Int(r.range(0, 2))).collect()),
+                1 => {
+                    let keys = ["k", "j", "a"];
+                    RVal::Object((0..r.below(3)).map(|q| (keys[q].to_string(), RVal::Int(r.range(0, 2)))).collect())
+                }
+                2 => match r.below(4) {
+                    0 => arr((0..r.below(3)).map(|_| s(r.choose(&["a", "b"]))).collect()),
+                    1 => arr(vec![arr((0..r.below(3)).map(|_| RVal::Int(r.range(0, 1))).collect())]),
+                    2 => RVal::Nil,
+                    _ => arr((0..r.below(3)).map(|_| RVal::Float(r.range(0, 2) as f64 / 2.0)).collect()),
+                },
+                3 => obj(vec![("k", match r.below(5) {
+                    0 => RVal::Nil,
+                    1 => s(r.choose(&["a", "B", "10"])),
+                    2 => arr((0..r.below(3)).map(|_| RVal::Int(r.range(0, 2))).collect()),
+                    3 => RVal::Float(f64::NAN),
+                    _ => RVal::Int(r.range(0, 5)),
+                })]),
+                4 => match r.below(8) {
+                    0 => RVal::Nil,
+                    1 => s(r.choose(&["a", "B", "10", "é"])),
+                    2 => RVal::Float(f64::NAN),
+                    3 => RVal::Bool(r.chance(1, 2)),
+                    4 => arr((0..r.below(3)).map(|_| RVal::Int(r.range(0, 2))).collect()),
+                    5 => obj(vec![("k", RVal::Int(r.range(0, 2)))]),
+                    6 => RVal::Date("2020-01-02".into()),
+                    _ => RVal::Int(r.range(-3, 9)),
+                },
+                _ => RVal::DateTime(format!("2020-01-0{} 0{}:00:00 +0{}00", 1 + r.below(3), r.below(3), r.below(3))),
+            }
+        };
+        let xs: Vec<RVal> = (0..len).map(|_| elem(&mut r)).collect();
+        let x = arr(xs);
+        let mut o = Object::new();
+        o.insert("x".into(), x.to_liquid());
+        for (cfgname, src, t) in &templates {
+            ctx.set_progress(&format!("array-stress {src} {}", x.dump()));
+            let out = render(t, &o);
+            ctx.record(hash_combine(hash_str(src), hash_str(&x.dump())), true);
+            ctx.count("family:array-stress");
+            judge(ctx, &out, "array-stress", || json!({"kind":"render","config":cfgname,"template":src,"partials":[],"data": RVal::Object(vec![("x".into(), x.clone())]).to_json()}));
+        }
+        ctx.sample(|| json!({"family": "array-stress", "kind": kind, "len": len, "x": x.dump().chars().take(120).collect::<String>()}));
+    }
 }
 
 fn filter_matrix(ctx: &mut Ctx) {
